@@ -123,6 +123,42 @@ def shard(p):
                                     {"literal": lit, "build": kind})
                 if kind == p["builds"][0] and i == 0:
                     acc.sample({"literal": chunk[0], "read": rep["read"][0][1:]}, cap=1)
+    # near-duplicate literals in ONE query: the same digits with zeros appended to the exponent or the fraction, an explicit plus sign,
+    # the other case of the exponent letter, a leading zero - as separate expressions and as the two operands of a quotient. Each
+    # literal denotes its own number whatever else the query contains (seed C07-i: a per-query memo of literals keyed by a "canonical"
+    # spelling that strips the zeros of the exponent along with those of the fraction)
+    pairs = []
+    for _ in range(p.get("n_pairs", 120)):
+        nd, nf = rng.randint(1, 9), rng.randint(1, 12)
+        body = "".join(rng.choice("0123456789") for _ in range(nd)).lstrip("0") or "6"
+        body += "." + "".join(rng.choice("0123456789") for _ in range(nf - 1)) + rng.choice("123456789")
+        ex = rng.choice(["e", "E"]) + rng.choice(["", "+", "-"]) + str(rng.randint(1, 30))
+        a = body + ex
+        b = rng.choice([body + ex + "0", body + "0" + ex, body + ex + "00", "+" + a, a.swapcase(), "0" + a, body + "00" + ex + "0", body + ex[:1] + ex[1:].replace("-", "").replace("+", "")])
+        if a == b:
+            continue
+        if rng.random() < 0.5:
+            a, b = b, a
+        pairs.append((a, b))
+    if pairs:
+        with Driver(p["bins"][p["builds"][0]]) as d:
+            reqs = []
+            for a, b in pairs:
+                reqs += [{"op": "query", "q": "(%s) (%s)" % (a, b)}, {"op": "query", "q": "%s / %s" % (a, b)}]
+            reps = d.call_many(reqs, timeout=300)
+        for i, (a, b) in enumerate(pairs):
+            va, vb = exact.lit_from_text(a), exact.lit_from_text(b)
+            acc.evaluations += 2
+            acc.count("near_duplicate_literal_pairs_in_one_query")
+            acc.nontriv("%s|%s" % (a, b))
+            it1, it2 = reps[2 * i].get("items") or [], reps[2 * i + 1].get("items") or []
+            got1 = [Fraction(int(x["ok"]["v"][0]), int(x["ok"]["v"][1])) if "ok" in x else None for x in it1]
+            if got1 != [va, vb]:
+                acc.violate("c07:pair-in-one-query:separate", "`(%s) (%s)` read as %s, the literals spell %s and %s" % (a, b, got1, va, vb), {"literal": "(%s) (%s)" % (a, b), "build": p["builds"][0]})
+            elif vb != 0:
+                got2 = [Fraction(int(x["ok"]["v"][0]), int(x["ok"]["v"][1])) if "ok" in x else None for x in it2]
+                if got2 != [va / vb]:
+                    acc.violate("c07:pair-in-one-query:quotient", "`%s / %s` is %s, the literals spell %s / %s" % (a, b, got2, va, vb), {"literal": "%s / %s" % (a, b), "build": p["builds"][0]})
     return acc
 
 def run(tier, seed):
